@@ -212,7 +212,7 @@ class Gen:
         d = self.A[area_type]
         return bool(d.get("params_base") and d["fields"] and d["fields"][0][1].startswith("TPM2B"))
 
-    def command(self, cc, sessions=0, decrypt=False, encrypt=False, path=R.ROOT):
+    def command(self, cc, sessions=0, decrypt=False, encrypt=False, path=R.ROOT, session_tag=False):
         """Returns (bytes, events, info).  info: cc, enc (response encryption requested)."""
         a = self.P["areas"][str(cc)]
         F = dict(self.P["frames"]["Command"]["fields"])
@@ -220,10 +220,11 @@ class Gen:
             decrypt = False
         if not sessions:
             encrypt = False
-        tag = 0x8002 if sessions else 0x8001
+        tag = 0x8002 if (sessions or session_tag) else 0x8001
         hb, hev = self.build(a["command_handles"], path + (R.seg("handles"),))
         body, bev = hb, hev
-        if sessions:
+        if tag == 0x8002:
+            # (an empty session area - authSize 0 - is expressible, too)
             sb, sev = self.sessions_command(path + (R.seg("authorizationArea"),), sessions, decrypt, encrypt)
             ab, aev = self.prim(F["authSize"], path + (R.seg("authSize"),), len(sb))
             body += ab + sb
@@ -243,7 +244,7 @@ class Gen:
         ] + bev
         return head + body, evs, dict(cc=cc, enc=bool(encrypt), dec=bool(decrypt), sessions=sessions)
 
-    def response(self, cc, sessions=0, enc=False, rc=0, path=R.ROOT, tag=None):
+    def response(self, cc, sessions=0, enc=False, rc=0, path=R.ROOT, tag=None, session_tag=False):
         a = self.P["areas"][str(cc)]
         F = dict(self.P["frames"]["Response"]["fields"])
         if rc != 0:
@@ -258,11 +259,11 @@ class Gen:
             return head, evs, dict(cc=cc, enc=None, rc=rc)
         if enc and not (sessions and self.can_encrypt(a["response_params"])):
             enc = False
-        t = 0x8002 if sessions else 0x8001
+        t = 0x8002 if (sessions or session_tag) else 0x8001
         hb, hev = self.build(a["response_handles"], path + (R.seg("handles"),))
         pb, pev = self.build(a["response_params"], path + (R.seg("parameters"),), enc=enc)
         body, bev = hb, hev
-        if sessions:
+        if t == 0x8002:
             sb, sev = self.sessions_response(path + (R.seg("authorizationArea"),), sessions, encrypt=enc)
             psb, psev = self.prim(F["parameterSize"], path + (R.seg("parameterSize"),), len(pb))
             body += psb + pb + sb
@@ -283,7 +284,7 @@ class Gen:
     def pair(self, cc, config=None):
         """A command and a matching response.  config: dict(sessions, decrypt, encrypt, fail)."""
         c = config or self.random_config()
-        cb, cev, ci = self.command(cc, c.get("sessions", 0), c.get("decrypt", False), c.get("encrypt", False))
+        cb, cev, ci = self.command(cc, c.get("sessions", 0), c.get("decrypt", False), c.get("encrypt", False), session_tag=c.get("session_tag", False))
         if c.get("fail"):
             rb, rev, ri = self.response(cc, rc=c["fail"])
         else:
@@ -292,9 +293,9 @@ class Gen:
             can = self.can_encrypt(self.P["areas"][str(cc)]["response_params"])
             if want_enc and not can:
                 # the command may not request response encryption for such a command: regenerate without
-                cb, cev, ci = self.command(cc, c.get("sessions", 0), c.get("decrypt", False), False)
+                cb, cev, ci = self.command(cc, c.get("sessions", 0), c.get("decrypt", False), False, session_tag=c.get("session_tag", False))
                 want_enc = False
-            rb, rev, ri = self.response(cc, sessions=c.get("sessions", 0), enc=want_enc)
+            rb, rev, ri = self.response(cc, sessions=c.get("sessions", 0), enc=want_enc, session_tag=c.get("session_tag", False))
         return (cb, cev, ci), (rb, rev, ri)
 
     def random_config(self):
@@ -302,6 +303,7 @@ class Gen:
         s = r.choice((0, 0, 1, 1, 2, 3))
         return dict(
             sessions=s,
+            session_tag=bool(s == 0 and r.random() < 0.15),
             decrypt=bool(s and r.random() < 0.4),
             encrypt=bool(s and r.random() < 0.4),
             fail=(r.choice(FAIL_CODES) if r.random() < 0.15 else 0),
